@@ -613,13 +613,16 @@ func (c *registration) setDelegate(m metric.Meter) {
 
 func (c *registration) Unregister() error {
 	c.unregMu.Lock()
-	defer c.unregMu.Unlock()
-	if c.unreg == nil {
+	unreg := c.unreg
+	c.unreg = nil
+	// Do not call unreg while holding unregMu: before a delegate is set it
+	// locks the meter, and meter.setDelegate locks unregMu (through
+	// registration.setDelegate) while holding the meter lock.
+	c.unregMu.Unlock()
+	if unreg == nil {
 		// Unregister already called.
 		return nil
 	}
 
-	var err error
-	err, c.unreg = c.unreg(), nil
-	return err
+	return unreg()
 }
